@@ -297,9 +297,42 @@ fn iofault_case(run_seed: u64, tier: Tier) -> Case {
         }
     }
     plan.ops = ops;
+    // 40% of the plans end with 2-3 concurrent writers on disjoint key sets (group commits under
+    // faults: the leader's error must reach its followers and vice versa)
+    let mut crng = rng.fork("clients");
+    if crng.chance(2, 5) {
+        let nc = crng.range(2, 3) as usize;
+        let nk = plan.keys.len().max(nc);
+        while plan.keys.len() < nk {
+            plan.keys.push(format!("extra-{}", plan.keys.len()).into_bytes());
+        }
+        let mut tag = 100_000u32;
+        for c in 0..nc {
+            let mine: Vec<usize> = (0..plan.keys.len()).filter(|k| k % nc == c).collect();
+            let n = crng.range(3, 12) as usize;
+            let mut ops = vec![];
+            for _ in 0..n {
+                let k = *crng.pick(&mine);
+                tag += 1;
+                match crng.weighted(&[50, 10, 15, 25]) {
+                    0 => ops.push(Op::Put { k, v: crate::plan::Val { tag, len: 12 + crng.below(200) as u32 } }),
+                    1 => ops.push(Op::Delete { k }),
+                    2 => {
+                        let k2 = *crng.pick(&mine);
+                        tag += 1;
+                        ops.push(Op::Batch { items: vec![(k, Some(crate::plan::Val { tag: tag - 1, len: 20 })), (k2, Some(crate::plan::Val { tag, len: 20 }))] });
+                    }
+                    _ => ops.push(Op::Get { k }),
+                }
+            }
+            plan.clients.push(ops);
+        }
+        // the single-client part must not touch... it may: main's writes precede all client writes
+    }
     let mut srng = rng.fork("sched");
     // low-preemption schedules: the fault space here is the failing call
-    let sched = SchedSpec { strategy: Strategy::Sticky { q_permille: *srng.pick(&[1000u32, 990, 900]) }, seed: srng.next_u64() };
+    let q = if plan.clients.is_empty() { *srng.pick(&[1000u32, 990, 900]) } else { *srng.pick(&[900u32, 700, 500]) };
+    let sched = SchedSpec { strategy: Strategy::Sticky { q_permille: q }, seed: srng.next_u64() };
     let mut params = BTreeMap::new();
     params.insert("max_points".to_string(), if tier == Tier::Quick { 30 } else { 100_000 });
     Case { engine: Engine::IoFault, run_seed, plan, sched, schedule: None, fault: None, params, image: None, max_steps: Some(3_000_000), log_plan: None, lock_plan: None, corrupt: None }
